@@ -395,6 +395,8 @@ pub fn gen_partition(r: &mut Rng, n: usize, style: usize) -> Vec<usize> {
 const SINGLES: &[&str] = &[
     "0", "1", "2", "3", "4", "7", "8", "9", "21", "30", "31", "34", "37", "39", "40", "41", "47", "49", "90", "91", "97", "100", "104", "107",
     "", "00", "01", "004", "031", "5", "6", "22", "23", "24", "25", "27", "28", "29", "59", "10", "11", "26", "50", "51", "60", "73", "99", "108", "255",
+    // values whose LOW BYTE is an assigned code (256 + 0/1/7/31/38/100, 512 + 4): a code is a number, not a byte
+    "256", "257", "263", "287", "294", "356", "516", "65535", "1000",
 ];
 
 /// one well-formed attribute group; returns (text, number of parameters)
